@@ -4,6 +4,7 @@ package main
 // (arguments, environment) and in the CONFIGURE properties of a task.
 
 import (
+	"encoding/json"
 	"fmt"
 	"os"
 	"sort"
@@ -17,7 +18,16 @@ import (
 	"verif/harness/vlib"
 )
 
-const c14Keys = 6
+const c14Keys = 8 // six ordinary keys and the two the core itself reads from the configuration store at START_ACTIVITY
+
+const c14Ordinary = 6
+
+// c14StorePromotion: opt-in (VERIF_C14B_STORE_PROMOTION=1). Without it the generator never lets the
+// root role's own vars define lhc_period / pdp_n_hbf_per_tf and never defines them in the store's
+// defaults only: in those placements the unchanged core (environment.go, before START_ACTIVITY) copies
+// the store value into the root role's vars, where it outranks the root's own var and every
+// workflow-level default (witness and fix: see the report); with the flag every placement is driven.
+func c14StorePromotion() bool { return os.Getenv("VERIF_C14B_STORE_PROMOTION") != "" }
 
 type c14Task struct {
 	Path   string              `json:"path"`
@@ -34,7 +44,15 @@ type c14Scenario struct {
 	Tasks       []c14Task         `json:"tasks"`
 }
 
-func c14Key(i int) string { return fmt.Sprintf("ck%d", i) }
+func c14Key(i int) string {
+	switch i {
+	case 6:
+		return "lhc_period"
+	case 7:
+		return "pdp_n_hbf_per_tf"
+	}
+	return fmt.Sprintf("ck%d", i)
+}
 
 // tag is the unique value a source gives a key; "" for an empty definition.
 func c14Tag(src, key string, empty bool) string {
@@ -79,6 +97,20 @@ func c14Gen(c *vlib.Ctx, idx int) c14Scenario {
 		parent.Children = append(parent.Children, role)
 		troles = append(troles, role)
 	}
+	// call roles: their func is an expression over the keys, evaluated when the hook fires; the published
+	// call event carries the result
+	triggers := []string{"before_START_ACTIVITY+10", "after_START_ACTIVITY+5", "before_STOP_ACTIVITY+5", "after_STOP_ACTIVITY+10", "after_START_ACTIVITY+50", "before_START_ACTIVITY+1"}
+	nCalls := 2 + r.Intn(3)
+	var croles []*roleSpec
+	for ci := 0; ci < nCalls; ci++ {
+		parent := root
+		if len(aggs) > 0 && r.Intn(2) == 0 {
+			parent = aggs[r.Intn(len(aggs))]
+		}
+		cr := &roleSpec{Name: fmt.Sprintf("c%d", ci), CallTrigger: triggers[(idx+ci)%len(triggers)], CallFunc: "pending"}
+		parent.Children = append(parent.Children, cr)
+		croles = append(croles, cr)
+	}
 	root.link(nil)
 	// place the keys
 	state := func(density int) int { // 0 absent, 1 present, 2 empty
@@ -93,6 +125,10 @@ func c14Gen(c *vlib.Ctx, idx int) c14Scenario {
 	for k := 0; k < c14Keys; k++ {
 		key := c14Key(k)
 		density := []int{8, 20, 40, 65}[r.Intn(4)]
+		special := k >= c14Ordinary
+		if special {
+			density = []int{30, 45, 65}[r.Intn(3)]
+		}
 		put := func(dst *[]kv, src string) {
 			d := density
 			if strings.HasPrefix(src, "vars@") {
@@ -112,9 +148,18 @@ func c14Gen(c *vlib.Ctx, idx int) c14Scenario {
 			}
 		}
 		putm(sc.UserVars, "user")
-		putm(sc.EnvVars, "vars@env")
-		putm(sc.EnvDefaults, "defaults@env")
-		put(&root.Vars, "vars@root")
+		if special && !c14StorePromotion() {
+			// the store defines the key in its vars most of the time, in its defaults only on top of that,
+			// and the root role's own vars leave it alone (see c14StorePromotion)
+			if r.Intn(10) < 7 {
+				sc.EnvVars[key] = c14Tag("vars@env", key, r.Intn(6) == 0)
+				putm(sc.EnvDefaults, "defaults@env")
+			}
+		} else {
+			putm(sc.EnvVars, "vars@env")
+			putm(sc.EnvDefaults, "defaults@env")
+			put(&root.Vars, "vars@root")
+		}
 		put(&root.Defaults, "defaults@root")
 		for _, a := range aggs {
 			put(&a.Vars, "vars@"+a.Name)
@@ -126,6 +171,21 @@ func c14Gen(c *vlib.Ctx, idx int) c14Scenario {
 			put(&tr.Task.Vars, "tpl-vars@"+tr.Name)
 			put(&tr.Task.Defaults, "tpl-defaults@"+tr.Name)
 		}
+		for _, cr := range croles {
+			put(&cr.Vars, "vars@"+cr.Name)
+			put(&cr.Defaults, "defaults@"+cr.Name)
+		}
+	}
+	for _, cr := range croles {
+		var parts []string
+		for k := 0; k < c14Keys; k++ {
+			key := c14Key(k)
+			if _, _, ok := c14Resolve(&sc, cr, key); !ok {
+				cr.Defaults = append(cr.Defaults, kv{key, c14Tag("defaults@"+cr.Name, key, false)})
+			}
+			parts = append(parts, fmt.Sprintf("'|%s=[' + %s + ']'", key, key))
+		}
+		cr.CallFunc = "'P' + " + strings.Join(parts, " + ")
 	}
 	// every key a task references must be defined somewhere for it (an undefined name is a template error)
 	for _, tr := range troles {
@@ -201,6 +261,9 @@ func c14Resolve(sc *c14Scenario, tr *roleSpec, key string) (vals []string, src s
 	}
 	if v, ok := sc.EnvDefaults[key]; ok {
 		return []string{v}, "defaults@env", true
+	}
+	if tr.Task == nil {
+		return nil, "", false
 	}
 	tv, okV := kvGet(tr.Task.Vars, key)
 	td, okD := kvGet(tr.Task.Defaults, key)
@@ -308,7 +371,7 @@ func c14Run(c *vlib.Ctx, idx int) {
 	for k, v := range sc.UserVars {
 		uv[k] = v
 	}
-	_, cerr := s.Client.NewEnvironment(ctx, &pb.NewEnvironmentRequest{WorkflowTemplate: sc.Root.Name, Vars: uv})
+	reply, cerr := s.Client.NewEnvironment(ctx, &pb.NewEnvironmentRequest{WorkflowTemplate: sc.Root.Name, Vars: uv})
 	cancel()
 	msg := grpcMsg(cerr)
 	obs.Steps = append(obs.Steps, fmt.Sprintf("NewEnvironment err=%q in %s", truncate(msg, 500), time.Since(t0).Round(time.Millisecond)))
@@ -448,6 +511,7 @@ func c14Run(c *vlib.Ctx, idx int) {
 			}
 		}
 	}
+	c14StartPhase(c, s, &sc, reply.GetEnvironment().GetId(), id, obs, winners)
 	var ws []string
 	for w := range winners {
 		ws = append(ws, w)
@@ -463,4 +527,185 @@ func findProbe(list []string, prefix string) (string, bool) {
 		}
 	}
 	return "", false
+}
+
+// ---- after START_ACTIVITY -------------------------------------------------------------------
+
+type c14CallEvent struct {
+	Path       string      `json:"path"`
+	Output     string      `json:"output"`
+	CallStatus interface{} `json:"callStatus"`
+	Traits     struct {
+		Trigger string `json:"trigger"`
+	} `json:"traits"`
+}
+
+// c14StartPhase drives START_ACTIVITY and STOP_ACTIVITY and applies the same precedence table to
+// what is visible from START on: the START command arguments the fake executors receive, the values
+// call hooks see at before_/after_START_ACTIVITY and at STOP, and the three maps GetEnvironment returns.
+func c14StartPhase(c *vlib.Ctx, s *coresim.Sim, sc *c14Scenario, envID string, caseID int64, obs *c14Obs, winners map[string]bool) {
+	idx := sc.Index
+	viol := func(where, want, got, detail string) {
+		c.Violation("PRECEDENCE", fmt.Sprintf("after-start/%s/want=%s,got=%s", where, want, got), fmt.Sprintf("%s [scenario %d]", detail, idx), caseID, obs)
+	}
+	control := func(op pb.ControlEnvironmentRequest_Optype) error {
+		ctx, cancel := coresim.Ctx(150 * time.Second)
+		defer cancel()
+		t0 := time.Now()
+		_, err := s.Client.ControlEnvironment(ctx, &pb.ControlEnvironmentRequest{Id: envID, Type: op})
+		obs.Steps = append(obs.Steps, fmt.Sprintf("%s err=%q in %s", op, truncate(grpcMsg(err), 300), time.Since(t0).Round(time.Millisecond)))
+		return err
+	}
+	if err := control(pb.ControlEnvironmentRequest_START_ACTIVITY); err != nil {
+		c.Inconclusive(fmt.Sprintf("scenario %d: START_ACTIVITY failed: %s", idx, truncate(grpcMsg(err), 300)))
+		return
+	}
+	c.Count("environments_started", 1)
+	root := sc.Root
+	label := func(vals []string, src string) string {
+		if len(vals) == 1 && vals[0] == "" {
+			return src + "(empty)"
+		}
+		return src
+	}
+	// (1) START command arguments: lhc_period is among the keys the core pushes from the root's stack
+	wantL, srcL, okL := c14Resolve(sc, root, "lhc_period")
+	for _, t := range s.Master.Tasks() {
+		for _, cmd := range t.Commands {
+			if cmd.Event != "START" {
+				continue
+			}
+			c.Count("start_commands_checked", 1)
+			for _, k := range []string{"lhc_period", "lhcPeriod"} {
+				got, present := cmd.Arguments[k]
+				switch {
+				case okL && !present:
+					viol("start-arguments", label(wantL, srcL), "absent", fmt.Sprintf("task %s: START arguments lack %s although the root role resolves lhc_period from %s", t.RolePath, k, srcL))
+				case !okL && present:
+					viol("start-arguments", "undefined", c14Decode(sc, root, "lhc_period", got), fmt.Sprintf("task %s: START arguments carry %s=%q although nothing visible at the root role defines lhc_period", t.RolePath, k, got))
+				case okL && got != wantL[0]:
+					viol("start-arguments", label(wantL, srcL), c14Decode(sc, root, "lhc_period", got), fmt.Sprintf("task %s: START argument %s is %q; the highest-ranking definition at the root role is %s = %q", t.RolePath, k, got, srcL, wantL[0]))
+				}
+				if okL {
+					c.Count("start_argument_values_compared", 1)
+				}
+			}
+		}
+	}
+	// (2) the three maps of GetEnvironment (root role: own layer over the environment-wide one, per kind)
+	checkMaps := func(when string) {
+		ctx, cancel := coresim.Ctx(30 * time.Second)
+		r, err := s.Client.GetEnvironment(ctx, &pb.GetEnvironmentRequest{Id: envID})
+		cancel()
+		if err != nil {
+			c.Inconclusive(fmt.Sprintf("scenario %d: GetEnvironment: %s", idx, grpcMsg(err)))
+			return
+		}
+		e := r.GetEnvironment()
+		for k := 0; k < c14Keys; k++ {
+			key := c14Key(k)
+			type layer struct {
+				name     string
+				got      map[string]string
+				own      []kv
+				envw     map[string]string
+				userOnly bool
+			}
+			for _, l := range []layer{
+				{"uservars-map", e.GetUserVars(), nil, sc.UserVars, true},
+				{"vars-map", e.GetVars(), root.Vars, sc.EnvVars, false},
+				{"defaults-map", e.GetDefaults(), root.Defaults, sc.EnvDefaults, false},
+			} {
+				want, wsrc, wok := "", "absent", false
+				if v, ok := kvGet(l.own, key); ok {
+					want, wok = v, true
+					wsrc = strings.TrimSuffix(l.name, "-map") + "@root"
+				} else if v, ok := l.envw[key]; ok {
+					want, wok = v, true
+					wsrc = strings.TrimSuffix(l.name, "-map") + "@env"
+					if l.userOnly {
+						wsrc = "user"
+					}
+				}
+				got, gok := l.got[key]
+				c.Count("environment_map_entries_compared", 1)
+				if wok != gok || (wok && got != want) {
+					gs := "absent"
+					if gok {
+						gs = c14Decode(sc, root, key, got)
+					}
+					if wok && want == "" {
+						wsrc += "(empty)"
+					}
+					viol(l.name, wsrc, gs, fmt.Sprintf("GetEnvironment %s: %s[%s] is %q (present=%v); by the sources of that kind it should be %q (present=%v, from %s)", when, l.name, key, got, gok, want, wok, wsrc))
+				}
+			}
+		}
+	}
+	checkMaps("after START_ACTIVITY")
+	if err := control(pb.ControlEnvironmentRequest_STOP_ACTIVITY); err != nil {
+		c.Inconclusive(fmt.Sprintf("scenario %d: STOP_ACTIVITY failed: %s", idx, truncate(grpcMsg(err), 300)))
+		return
+	}
+	checkMaps("after STOP_ACTIVITY")
+	// (3) what the call hooks saw: wait (logically) until every call role has published its result
+	calls := root.callRoles()
+	seen := map[string]string{}
+	deadline := time.Now().Add(60 * time.Second)
+	for {
+		for _, ev := range s.Events() {
+			if !strings.HasSuffix(ev.Type, "Ev_CallEvent") {
+				continue
+			}
+			var ce c14CallEvent
+			if json.Unmarshal(ev.Ev, &ce) != nil || !strings.HasPrefix(ce.Output, "P|") {
+				continue
+			}
+			seen[ce.Path] = ce.Output
+		}
+		if len(seen) >= len(calls) || time.Now().After(deadline) {
+			break
+		}
+		time.Sleep(20 * time.Millisecond)
+	}
+	for _, cr := range calls {
+		out, ok := seen[cr.path]
+		if !ok {
+			c.Count("call_results_missing", 1)
+			c.Inconclusive(fmt.Sprintf("scenario %d: call role %s (%s) published no result", idx, cr.path, cr.CallTrigger))
+			continue
+		}
+		obs.Seen[cr.path+" @"+cr.CallTrigger] = []string{out}
+		c.Count("call_hooks_checked", 1)
+		c.Count("call_hooks_"+strings.SplitN(cr.CallTrigger, "+", 2)[0], 1)
+		for k := 0; k < c14Keys; k++ {
+			key := c14Key(k)
+			got, found := "", false
+			for _, part := range strings.Split(out, "|") {
+				if strings.HasPrefix(part, key+"=[") && strings.HasSuffix(part, "]") {
+					got, found = part[len(key)+2:len(part)-1], true
+				}
+			}
+			want, src, _ := c14Resolve(sc, cr, key)
+			winners["call:"+src] = true
+			c.Count("call_values_compared", 1)
+			if k >= c14Ordinary {
+				c.Count("call_values_compared_store_keys", 1)
+				_, inStore := sc.EnvVars[key]
+				if _, d := sc.EnvDefaults[key]; d {
+					inStore = true
+				}
+				if inStore && !strings.HasSuffix(src, "@env") {
+					c.Count("store_key_outranked_by_user_or_workflow", 1)
+				}
+			}
+			if !found {
+				viol("call", src, "missing", fmt.Sprintf("call role %s (%s): result %q has no value for %s", cr.path, cr.CallTrigger, out, key))
+				continue
+			}
+			if len(want) == 0 || got != want[0] {
+				viol("call", label(want, src), c14Decode(sc, cr, key, got), fmt.Sprintf("call role %s at %s sees %s = %q (from %s); the highest-ranking definition is %s with value %q", cr.path, cr.CallTrigger, key, got, c14Decode(sc, cr, key, got), src, want))
+			}
+		}
+	}
 }
